@@ -33,6 +33,7 @@ class Outcome:
         self.wall = 0.0
         self.fed = 0
         self.signalled = False
+        self.cpu_exceeded = None     # CPU seconds consumed when the CPU-time bound was exceeded
 
     def panicked(self):
         s = self.stderr
@@ -40,7 +41,7 @@ class Outcome:
 
 
 def run(argv, env=None, cwd=None, stdin_data=None, chunk=65536, signal_after_chunk=None, signum=signal.SIGINT, close_stdout_after=None,
-        signal_after_stdout=None, watchdog=60.0, hard=150.0):
+        signal_after_stdout=None, watchdog=60.0, hard=150.0, cpu_limit=None):
     """signal_after_chunk: send signum after that many chunks were written to stdin (logical instant);
     signal_after_stdout: send signum after that many bytes of stdout were read; close_stdout_after: close our end of stdout after n bytes."""
     o = Outcome()
@@ -122,6 +123,13 @@ def run(argv, env=None, cwd=None, stdin_data=None, chunk=65536, signal_after_chu
         except subprocess.TimeoutExpired:
             pass
         now = time.time()
+        if cpu_limit is not None:
+            c = cpu_ticks(p.pid)
+            if c is not None and c / os.sysconf("SC_CLK_TCK") > cpu_limit:
+                o.cpu_exceeded = c / os.sysconf("SC_CLK_TCK")
+                p.kill()
+                p.wait()
+                break
         if now > deadline:
             # logical no-progress inspection
             c1 = cpu_ticks(p.pid)
